@@ -575,6 +575,21 @@ fn op_schema_build(cmd: &J) -> Result<J, String> {
 		}
 	}
 	if what == "all" || what == "freeze" {
+		// the accessors of every name in the graph (whatever text it was built from) must return
+		let mut name_probes = 0usize;
+		for node in graph.nodes() {
+			use serde_avro_fast::schema::RegularType as RT;
+			let name = match &node.type_ {
+				RT::Record(r) => Some(&r.name),
+				RT::Enum(e) => Some(&e.name),
+				RT::Fixed(f) => Some(&f.name),
+				_ => None,
+			};
+			if let Some(n) = name {
+				name_probes += n.name().len() + n.namespace().map_or(0, str::len) + n.fully_qualified_name().len() + format!("{:?}", n).len();
+			}
+		}
+		out["name_probes"] = json!(name_probes);
 		match graph.clone().freeze() {
 			Err(_) => {
 				out["freeze"] = json!("err");
